@@ -142,7 +142,7 @@ func c19(c *core.Check) {
 		r2.Cond(has(valCases, s), "Validate handles system "+s, p.Pos(valSw.Pos), "case present", "accepted by the validator but Validate does not check its symbols: an empty symbol list reaches the renderer")
 	}
 	// symbols(): the names compared with arg0.Value in listStyleType_
-	symNames := core.ComparedStrings(lst, func(v ssa.Value) bool { return core.IsFieldNamed(v, "Value") })
+	symNames := core.ComparedStrings(lst, func(v ssa.Value) bool { return true })
 	nSys := 0
 	for _, s := range symNames {
 		if has(spec, s) {
